@@ -8,9 +8,15 @@ PROPS["C05"] = {
     "contracts": [
         ("contracts.bytecode", "xdis.bytecode:offset2line"),
         ("contracts.cross_dis", "xdis.cross_dis:findlinestarts"),
+        ("contracts.lines", "xdis.codetype.code310:Code310.co_lines"),
+        ("contracts.lines", "xdis.cross_dis:findlinestarts/co_lines"),
+        ("contracts.lines", "xdis.opcodes.opcode_313:findlinestarts_313"),
+        ("contracts.code311", "xdis.codetype.code311:_scan_varint"),
+        ("contracts.code311", "xdis.codetype.code311:_go_to_next_code_byte"),
+        ("contracts.code311", "xdis.codetype.code311:parse_linetable"),
     ],
     "ground": [],
-    "bounded": [],
+    "bounded": [("ground.adequacy", "check", {"which": ("lines",)})],
     "assumptions": [],
 }
 
@@ -19,7 +25,12 @@ PROPS["C17"] = {
     "contracts": [
         ("contracts.bytecode", "xdis.bytecode:_parse_varint"),
         ("contracts.bytecode", "xdis.bytecode:parse_exception_table"),
+        ("contracts.code311", "xdis.codetype.code311:_scan_varint"),
+        ("contracts.code311", "xdis.codetype.code311:_go_to_next_code_byte"),
+        ("contracts.code311", "xdis.codetype.code311:parse_linetable"),
+        ("contracts.code311", "xdis.codetype.code311:decode_position_entry"),
     ],
+    "bounded": [("ground.adequacy", "check", {"which": ("lines", "exc")})],
     "assumptions": [],
 }
 
